@@ -1,10 +1,11 @@
 /* C19: the argument stream and the C outcomes for the comparison with the Java implementation.  One line per call:
- *   fn|sig|i0|i1|d0|d1|d2|s|c_ok|c_hash|c_doubles|extra  (doubles as decimal bit patterns; c_doubles: "hi,lo;hi,lo;...")
+ *   fn|sig|i0|i1|d0|d1|d2|s|c_ok|c_hash|c_doubles|extra|neighbours  (doubles as decimal bit patterns; c_doubles: "hi,lo;hi,lo;...")
  * Objects are projected to the digest of their integer / string fields (same recipe as JDrive.hashObj: Java String.hashCode of a
  * canonical string) plus the list of their double fields. */
 #include "common.h"
 #include "api.h"
 #include "xrf_cross_sections_aux.h"
+#include "xrayglob.h"
 double ElectronConfig_Biggs(int Z, int shell, xrl_error **error);      /* exported by comptonprofiles.c, in no header; Java has it as a public method */
 /* the vacancy-production helpers of the cascade (xrf_cross_sections_aux.h): shell s = 1..8 (L1 L2 L3 M1..M5), variant v = 0 pure, 1 radiative,
  * 2 non-radiative, 3 full cascade; p[] = PK, PL1, PL2, PL3, PM1..PM4 */
@@ -25,16 +26,30 @@ static double pcall(int s, int v, int Z, double E, const double *p, xrl_error **
 static int32_t jhash(const char *s) { int32_t h = 0; for (; *s; s++) h = (int32_t)((uint32_t)h * 31u + (unsigned char)*s); return h; }
 static void dbits(char *o, const double *v, int n) { *o = 0; for (int i = 0; i < n; i++) { uint64_t b; memcpy(&b, &v[i], 8); o += sprintf(o, "%s%d,%d", i ? ";" : "", (int32_t)(b >> 32), (int32_t)(b & 0xffffffffu)); } }
 static const char *EXTRA = "";      /* 12th field: the atoms of a CrystalDef line, or the magnitude scale of a structure factor */
+/* 13th field: where the C outcome is NOT locally constant in its first continuous argument (an absorption edge, a table end, a duplicated knot within
+ * 1e-10 relative of the argument), the C outcomes at x (1 - 1e-10) and x (1 + 1e-10): "ok,hi,lo/ok,hi,lo".  The two implementations hold their tables at
+ * different precision (C: 11 significant digits, Java: unrounded) and use different libm's, so which side of a discontinuity such an argument falls on
+ * is itself a matter of round-off; XrlEquiv accepts the Java outcome if it matches the C outcome at the argument or at one of these two neighbours. */
+static char ALTBUF[256]; static const char *ALT = "";
+static void neighbours(ApiFn *f, const int *ia, const double *da, const char *s, double v, int ok) {
+  ALT = ""; if (da[0] == 0.0 || !isfinite(da[0])) return;
+  double d2[3] = {da[0], da[1], da[2]}; int oks[2]; double vs[2];
+  for (int k = 0; k < 2; k++) { d2[0] = da[0] * (k ? 1.0 + 1e-10 : 1.0 - 1e-10); xrl_error *e = NULL; vs[k] = api_call(f, ia, d2, s, &e); oks[k] = e == NULL; xrl_clear_error(&e); }
+  int flat = 1; for (int k = 0; k < 2; k++) if (oks[k] != ok || (ok && fabs(vs[k] - v) > 1e-9 * fabs(v))) flat = 0;
+  if (flat) return;
+  char *o = ALTBUF; for (int k = 0; k < 2; k++) { uint64_t b; memcpy(&b, &vs[k], 8); o += sprintf(o, "%s%d,%d,%d", k ? "/" : "", oks[k], (int32_t)(b >> 32), (int32_t)(b & 0xffffffffu)); }
+  ALT = ALTBUF;
+}
 static void line(const char *fn, const char *sig, int i0, int i1, const double *d, const char *s, int ok, long hash, const char *cd) {
   int64_t b[3]; memcpy(b, d, 24);
-  fprintf(OUT, "%s|%s|%d|%d|%lld|%lld|%lld|%s|%d|%ld|%s|%s\n", fn, sig, i0, i1, (long long)b[0], (long long)b[1], (long long)b[2], s ? s : "", ok, hash, cd, EXTRA);
+  fprintf(OUT, "%s|%s|%d|%d|%lld|%lld|%lld|%s|%d|%ld|%s|%s|%s\n", fn, sig, i0, i1, (long long)b[0], (long long)b[1], (long long)b[2], s ? s : "", ok, hash, cd, EXTRA, ALT); ALT = "";
 }
 static const char *SIGN[] = {"I", "II", "ID", "IID", "IDD", "IDDD", "D", "DD", "DDD", "SD", "SDD", "SDDD"};
 static const char *STR[] = {"H2O", "Ca5(PO4)3OH", "Fe", "U", "SiO2", "C6H12O6", "Water, Liquid", "Polyethylene", "Bone, Cortical (ICRP)", "H2O)", "Unobtainium", "Rf", "", "(((H)))", "U0.5Pu0.5O2", "H0", "Fe 2", "55Fe", "241Am", "nope"};
 #define NSTR ((int)(sizeof STR / sizeof *STR))
 int cmd_c19(int argc, char **argv) {
   int part = argc > 0 ? atoi(argv[0]) : 0, np = argc > 1 ? atoi(argv[1]) : 1, thorough = argc > 2 && !strcmp(argv[2], "thorough");
-  static const double EQ[] = {-1.0, 0.0, 0.05, 1.0, 8.98, 20.0, 100.0, 799.9, 1500.0}; static const double ET[] = {0.5, 3.0, 17.44, 59.5, 300.0};
+  static const double EQ[] = {-1.0, 0.0, 0.05, 1.0, 8.98, 20.0, 100.0, 300.0, 799.9, 1500.0}; static const double ET[] = {0.5, 3.0, 17.44, 59.5, 150.0};
   static const double AQ[] = {0.0, 0.7853981633974483, 1.5707963267948966, 3.141592653589793, -1.0};
   double el[32]; int ne = 0; for (unsigned i = 0; i < sizeof EQ / sizeof *EQ; i++) el[ne++] = EQ[i]; if (thorough) for (unsigned i = 0; i < sizeof ET / sizeof *ET; i++) el[ne++] = ET[i];
   int idx = 0; static char cd[1 << 18];
@@ -42,12 +57,40 @@ int cmd_c19(int argc, char **argv) {
     if (idx++ % np != part) continue;
     int ni = SIG_NI[f->sig], nd = SIG_ND[f->sig], ns = SIG_NS[f->sig]; int ia[2] = {0, 0}; double da[3] = {0, 0, 0};
     int mstep = (f->sig == SIG_IID && !thorough) ? 5 : 1; int estep = (f->sig == SIG_IID) ? (thorough ? 3 : 4) : 1;
-    for (int si = 0; si < (ns ? NSTR : 1); si++) for (int Z = ni ? -2 : 0; Z <= (ni ? 122 : 0); Z++) for (int m = ni > 1 ? f->mlo : 0; m <= (ni > 1 ? f->mhi : 0); m += mstep)
-      for (int a = 0; a < (nd >= 1 ? ne : 1); a += estep) for (int b = 0; b < (nd >= 2 ? 5 : 1); b++) for (int c = 0; c < (nd >= 3 ? 3 : 1); c++) {
-        ia[0] = Z; ia[1] = m; da[0] = nd >= 1 ? el[(a + (estep > 1 ? (((Z + m) % estep) + estep) % estep : 0)) % ne] : 0; da[1] = nd >= 2 ? AQ[b] : 0; da[2] = nd >= 3 ? AQ[c * 2] : 0;
+    for (int si = 0; si < (ns ? NSTR : 1); si++) for (int Z = ni ? -2 : 0; Z <= (ni ? 122 : 0); Z++) {
+      /* the absorption edges themselves, exactly and one part in 1e9 to either side: every comparison of an energy with an edge is decided here */
+      double ex[16]; int nx = 0;
+      if (ni && nd == 1 && Z >= 1 && Z <= 104) for (int sh = 0; sh < 4; sh++) { double ed = EdgeEnergy(Z, sh, NULL); if (ed > 0) { ex[nx++] = ed; ex[nx++] = ed * (1 - 1e-9); ex[nx++] = ed * (1 + 1e-9); } }
+      for (int m = ni > 1 ? f->mlo : 0; m <= (ni > 1 ? f->mhi : 0); m += mstep)
+      for (int a = 0; a < (nd >= 1 ? ne + nx * estep : 1); a += estep) for (int b = 0; b < (nd >= 2 ? 5 : 1); b++) for (int c = 0; c < (nd >= 3 ? 3 : 1); c++) {
+        ia[0] = Z; ia[1] = m; da[0] = nd >= 1 ? (a >= ne ? ex[(a - ne) / estep] : el[(a + (estep > 1 ? (((Z + m) % estep) + estep) % estep : 0)) % ne]) : 0; da[1] = nd >= 2 ? AQ[b] : 0; da[2] = nd >= 3 ? AQ[c * 2] : 0;
         xrl_error *e = NULL; double v = api_call(f, ia, da, ns ? STR[si] : NULL, &e); dbits(cd, &v, 1);
+        if (nd >= 1) neighbours(f, ia, da, ns ? STR[si] : NULL, v, e == NULL);
         line(f->name, SIGN[f->sig], ia[0], ia[1], da, ns ? STR[si] : "", e == NULL, 0, e == NULL ? cd : ""); xrl_clear_error(&e);
       }
+    }
+  }
+  /* ---- the interpolated quantities at the places where an interpolation routine takes decisions: both ends of every table, every knot interval
+   * narrower than 1e-6 (duplicated knots encode edges) at its two knots and in between, and a handful of seeded knots and midpoints */
+  {
+    struct { const char *q; int tr; int *n; double **x; } T[] = {
+      {"CS_Photo", 1, NE_Photo, E_Photo_arr}, {"CS_Rayl", 1, NE_Rayl, E_Rayl_arr}, {"CS_Compt", 1, NE_Compt, E_Compt_arr}, {"CS_Energy", 2, NE_Energy, E_Energy_arr},
+      {"FF_Rayl", 0, Nq_Rayl, q_Rayl_arr}, {"SF_Compt", 0, Nq_Compt, q_Compt_arr}, {"Fi", 0, NE_Fi, E_Fi_arr}, {"Fii", 0, NE_Fii, E_Fii_arr}, {"ComptonProfile", 3, Npz_ComptonProfiles, pz_ComptonProfiles}};
+    uint64_t keep = RNG;
+    for (unsigned t = 0; t < sizeof T / sizeof *T; t++) {
+      ApiFn *f = NULL; for (ApiFn *g = API_TABLE; g->name; g++) if (!strcmp(g->name, T[t].q)) f = g; if (!f) continue;
+      for (int Z = 1 + part; Z <= ZMAX; Z += np) { int n = T[t].n[Z]; const double *x = T[t].x[Z]; if (n < 2) continue; RNG = keep + 1000003ULL * Z + t;
+        double pts[4096]; int npt = 0; int tr = T[t].tr;
+#define INV(v) (tr == 0 ? (v) : tr == 1 ? exp(v) / 1000.0 : tr == 2 ? exp(v) : exp(v) - 1.0)
+        double lo = INV(x[0]), hi = INV(x[n - 1]);
+        pts[npt++] = lo; pts[npt++] = lo * (1 - 1e-9); pts[npt++] = lo * (1 + 1e-9); pts[npt++] = hi; pts[npt++] = hi * (1 - 1e-9); pts[npt++] = hi * (1 + 1e-6);
+        for (int k = 0; k + 1 < n && npt < 4000; k++) if (x[k + 1] - x[k] < 1e-6) { pts[npt++] = INV(x[k]); pts[npt++] = INV(0.5 * (x[k] + x[k + 1])); pts[npt++] = INV(x[k + 1]); }
+        for (int r = 0; r < 6; r++) { int k = rndint(0, n - 2); pts[npt++] = INV(x[k]); pts[npt++] = INV(0.5 * (x[k] + x[k + 1])); }
+        for (int i = 0; i < npt; i++) { int ia[2] = {Z, 0}; double da[3] = {pts[i], 0, 0}; xrl_error *e = NULL; double v = api_call(f, ia, da, NULL, &e); dbits(cd, &v, 1); neighbours(f, ia, da, NULL, v, e == NULL);
+          line(f->name, "ID", Z, 0, da, "", e == NULL, 0, e == NULL ? cd : ""); xrl_clear_error(&e); }
+      }
+    }
+    RNG = keep;
   }
   if (part == 0) {
     double z3[3] = {0, 0, 0}; static char sb[1 << 16];
@@ -65,6 +108,8 @@ int cmd_c19(int argc, char **argv) {
       for (int a = 0; a < ne; a += 2) for (int k = 0; k < 3; k++) { double dd[3] = {el[a], (double[]){-1.0, 1.0, 2.5}[k], 0}; xrlComplex zc = Refractive_Index(STR[i], dd[0], dd[1], &e); double v[2] = {zc.re, zc.im}; dbits(cd, v, 2);
         line("Refractive_Index", "SDD", 0, 0, dd, STR[i], e == NULL, 0, e == NULL ? cd : ""); xrl_clear_error(&e); }
     }
+    /* two passes: the Java driver scribbles over the arrays of every object it was handed, so a lookup that hands out the catalogue's own arrays shows in the second pass */
+    for (int pass = 0; pass < 2; pass++)
     for (int i = -2; i <= 185; i++) {
       xrl_error *e = NULL; struct compoundDataNIST *n1 = GetCompoundDataNISTByIndex(i, &e);
       if (n1) { int o = sprintf(sb, "%s%d", n1->name, n1->nElements); for (int k = 0; k < n1->nElements; k++) o += sprintf(sb + o, ",%d", n1->Elements[k]); double v[64]; for (int k = 0; k < n1->nElements; k++) v[k] = n1->massFractions[k]; v[n1->nElements] = n1->density; dbits(cd, v, n1->nElements + 1); }
@@ -136,9 +181,9 @@ int cmd_c19(int argc, char **argv) {
     int nn = 0, nr = 0; char **nist = GetCompoundDataNISTList(&nn, NULL); char **nuc = GetRadioNuclideDataList(&nr, NULL);
     if (part == 0) { int o = sprintf(sb, "%d", nn); for (int i = 0; i < nn; i++) o += sprintf(sb + o, ",%s", nist[i]); line("GetCompoundDataNISTList", "X", 0, 0, z3, "", 1, jhash(sb), "");
       o = sprintf(sb, "%d", nr); for (int i = 0; i < nr; i++) o += sprintf(sb + o, ",%s", nuc[i]); line("GetRadioNuclideDataList", "X", 0, 0, z3, "", 1, jhash(sb), ""); }
-    for (int i = 0; i < nform + nn + nr; i++) {
+    for (int i = 0; i < nform + 2 * (nn + nr); i++) {       /* the catalogue names twice (see the two passes above) */
       char f[512]; int o = 0;
-      if (i >= nform) { const char *nm = i - nform < nn ? nist[i - nform] : nuc[i - nform - nn]; snprintf(f, sizeof f, "%s", nm); }
+      if (i >= nform) { int j = (i - nform) % (nn + nr); const char *nm = j < nn ? nist[j] : nuc[j - nn]; snprintf(f, sizeof f, "%s", nm); }
       else {
         int items = rndint(1, 5), depth = 0;
         for (int k = 0; k < items && o < 400; k++) {
